@@ -221,15 +221,14 @@ class Checker:
                 if k.get('clause') and not re.fullmatch(k['clause'], v['clause']):
                     continue
                 cls = k.get('class')
-                if cls:
-                    if not self.class_pred(cls, v['input']):
-                        continue
+                if cls and cls not in v.get('classes', []):
+                    continue
                 return k
             return None
         for name, ress in replayed.items():
             for res in ress:
                 for f in res['fails']:
-                    v = {'case': res['case'], 'clause': f['clause'], 'input': res['input'], 'detail': f['detail'], 'obligation': name}
+                    v = {'case': res['case'], 'clause': f['clause'], 'input': res['input'], 'detail': f['detail'], 'obligation': name, 'classes': f.get('classes', [])}
                     k = is_known(v)
                     if k is not None:
                         known_hits.setdefault(id(k), (k, v))
